@@ -360,7 +360,20 @@ func runC12(c *Ctx) {
 			declared := len(payload)
 			body := input
 			variant := "wellformed"
-			switch c.Rng.Intn(5) {
+			switch c.Rng.Intn(7) {
+			case 5, 6:
+				// a proper prefix of the well-formed stream whose declared decoded length is exactly
+				// what the decoder delivers before the stream breaks off: only the framing tells
+				if len(input) > 0 {
+					body = input[:c.Rng.Intn(len(input))]
+					if c.Rng.Intn(2) == 0 && len(input) > 90 {
+						// cut inside the terminating zero-size chunk
+						body = input[:len(input)-1-c.Rng.Intn(88)]
+					}
+					got, _ := io.ReadAll(gofakes3.VerifNewChunkedReader(bytes.NewReader(body)))
+					declared = len(got)
+					variant = "truncated-declared-as-delivered"
+				}
 			case 0:
 				declared = len(payload) + 1 + c.Rng.Intn(3)
 				variant = "declared-longer"
@@ -414,6 +427,13 @@ func runC12(c *Ctx) {
 			}
 			if obs != "rejected" && !strings.HasPrefix(obs, "stored ") {
 				// keep fingerprint
+			}
+			// the statement itself: a stream that breaks off before its end is refused, whatever it declares
+			if strings.HasPrefix(variant, "truncated") && len(body) < len(input) && obs != "rejected" {
+				c.R.Evaluations++
+				c.mismatch(Mismatch{Kind: "spec", Backend: kind, Case: []string{line, fmt.Sprintf("# the first %d of the %d bytes of a well-formed stream, X-Amz-Decoded-Content-Length: %d", len(body), len(input), declared)},
+					Impl: trunc(obs, 200), Spec: "rejected: the framing is incomplete (the terminating zero-size chunk was not received to its end)", Finger: "accepted-truncated-stream"})
+				continue
 			}
 			model, _, err := c.D.Ask(line)
 			if err != nil {
